@@ -35,7 +35,7 @@ def run(ctx, res):
     res.floor("C01.R2", 3)
     add = prog.need("mtbl_writer_add", W)
     res.saw(add)
-    ev = APE.run(prog, cg, add, bound=1)
+    ev = APE.run(prog, cg, add, bound=APE.BOUND)
     pn = [p["name"] for p in add.params]
     for p in ev.paths:
         if p.end != "exit":
@@ -62,7 +62,7 @@ def run(ctx, res):
         if not fins:
             continue
         res.saw(g)
-        evp = APE.run(prog, cg, g, bound=1)
+        evp = APE.run(prog, cg, g, bound=APE.BOUND)
         for p in evp.paths:
             if p.end != "exit":
                 continue
@@ -79,7 +79,7 @@ def run(ctx, res):
                           "builder %s is finished and then %s" % (who, "reused without a reset" if reuse else "left finished (the next add aborts)"),
                           g.loc(e.node), p.describe(g))
     fin = prog.need("_mtbl_writer_finish", W)
-    evp = APE.run(prog, cg, fin, bound=1)
+    evp = APE.run(prog, cg, fin, bound=APE.BOUND)
     for p in evp.paths:
         if p.end != "exit":
             continue
@@ -94,7 +94,7 @@ def run(ctx, res):
                   "trailer write is %s" % [[APE.vstr(x) for x in w.b] for w in wa], fin.loc(fin.body))
     # flush hands the finished data block to exactly one of: the pool, or compress+write inline
     fl = prog.need("_mtbl_writer_flush", W)
-    evp = APE.run(prog, cg, fl, bound=1)
+    evp = APE.run(prog, cg, fl, bound=APE.BOUND)
     for p in evp.paths:
         if p.end != "exit":
             continue
@@ -116,7 +116,7 @@ def run(ctx, res):
     res.floor("C01.R4", 2)
     nxt = prog.need("reader_iter_next", "mtbl/reader.c")
     res.saw(nxt)
-    evp = APE.run(prog, cg, nxt, bound=1)
+    evp = APE.run(prog, cg, nxt, bound=APE.BOUND)
     seen = 0
     for p in evp.paths:
         if p.end != "exit":
@@ -160,7 +160,7 @@ def run(ctx, res):
     if d is None:
         raise BrokenAnalysis("dump() not found in src/mtbl_dump.c")
     res.saw(d)
-    evp = APE.run(prog, ctx.cg_all, d, bound=1)
+    evp = APE.run(prog, ctx.cg_all, d, bound=APE.BOUND)
     pn = {p["name"]: i for i, p in enumerate(d.params)}
     n_iter = 0
     for p in evp.paths:
